@@ -284,6 +284,17 @@ PROPS["C02"] = {
     ],
 }
 
+PROPS["C05"] = {
+    "level": "model_checking",
+    "explanation": "inductive steps from an arbitrary valid state: (1) every mutating RPC with C04's post-state clauses (a block no longer pointed to is unmarked, a block marked by the request is pointed to, inode bitmap = live inodes, an object that lost its only name is freed) plus agreement of the in-memory block and inode allocators with the on-disk bitmaps at a solver-chosen bit after every request, successful or not; (2) DoShrink from every pending extent within the bound, incl. extents reaching into the indirect block with holes: freeing completes and every block held beyond the size (slots, index block, entries) is unmarked on disk and in memory; (3) MakeNfs on an arbitrary disk builds allocators equal to the bitmaps; (4) the real first-fit allocator of go-journal satisfies the contract used by the step harnesses",
+    "assumptions": JOURNAL + ["pre-state satisfies Inv (DESIGN.md B.4) including bitmap agreement and link counts", "representative inode/block numbers (bound R_addr)", "the global statement (marked = reachable from the root; free space returns to its initial value) follows from the per-inode clauses by induction over requests and is argued, not checked", "crash states are states between transactions (C01); a half-freed object met by a later request is the pending-shrink pre-state"],
+    "outside": ["entries of the double-indirect tree (only its root slot is followed)", "commits refused by the journal (transactions above 511 blocks): then the in-memory allocators and the disk bitmaps can differ until a restart (observed by reading fstxn.commitWait, not reachable within B_bytes)", "histories (induction over the step)", "the background shrinker thread racing with requests (C03/C14)"],
+    "harnesses": _steps("p05", (1, 2, 3), covers_by={2: ("w5-create", "w5-remove"), 3: ("w5-rename",)}, q_by={2: {"pendingshrink": 1}}, t_by={1: {"inums": 1, "pendingshrink": 0, "namelens": 2}, 2: {"inums": 1, "namelens": 2}, 3: {"inums": 1, "pendingshrink": 0, "namelens": 2}}) + [
+        H("nfs.VerifC05Shrink", covers=("end", "entry-freed", "entry-hole"), q=dict(STEPQ, inums=1, bblocks=2, sizeblocks=0), t=dict(STEPQ, inums=2, bblocks=3, sizeblocks=0), lmax=3, budget_s=400, budget_s_t=1500),
+        H("nfs.VerifC05Restart", covers=("end",), q=dict(STEPQ, inums=1), t=dict(STEPQ, inums=1), budget_s=200),
+    ],
+}
+
 NOT_APPLICABLE = {
     "C05": "the on-disk step obligations (dropped block unmarked, block marked by the request pointed to, inode bitmap = live inodes, object that lost its only name freed, DoShrink completes) are decided under C04 and the return of allocations by failed requests under C09; the agreement of the in-memory allocators with the disk bitmaps (the allocator is a contract stub in the step harnesses) and blocks reached through index blocks are not decided, so the property as stated is not claimed (DESIGN.md A.1)",
 }
